@@ -303,6 +303,8 @@ def finish(mod, tier, seed, src, cases, results, t0, exhaustive=True):
         "fixed_findings_on_record": [f"{f['commit']} {f['what']}" for f in fixed if f["property"] == pid],
         "src": src,
         "slowest_case_s": round(max([r["t"] for r in results] or [0.0]), 2),
+        "cpu_s_total": round(sum(r["t"] for r in results), 1),
+        "slowest_cases": [{"t": round(results[i]["t"], 1), "case": cases[i]} for i in sorted(range(len(cases)), key=lambda i: -results[i]["t"])[:3]],
     }
     if mod.LEVEL == "model_checking":
         cov["states"] = int(states)
